@@ -15,10 +15,15 @@ RULE = ("margin (L1, real SifchainApp, real margin+clp keepers and message serve
         "twice), Close (owner, outsider, unknown id), AdminClose/ForceClose (administrator and non-administrators, with/without fund cut), "
         "BeginBlocker every block (epoch boundaries with interest, liquidations), real clp Swap/AddLiquidity/RemoveLiquidity moving the "
         "price by up to 60% of depth, administrator parameter changes (including fund addresses set to a module account, safety factor "
-        "100), plus 6 directed histories per run (the configurations of F14/F14b/F14c; all ten pools at once with positions on both "
-        "sides of each, two epoch hooks, every position closed).  After every operation: full state dump compared "
+        "100, either or both fund addresses left out of MsgUpdateParams = stored empty, fund percentages 0/0.1/0.5/1, all while positions "
+        "are open; the message is encoded, decoded, ValidateBasic'ed and sent through the message server), plus 8 directed histories per "
+        "run (the configurations of F14/F14b/F14c; all ten pools at once with positions on both sides of each, two epoch hooks, every "
+        "position closed; interest fund address empty: hook, mid-epoch Close, AdminClose; force-close fund address empty: AdminClose "
+        "with/without fund cut, liquidation).  After every operation: full state dump compared "
         "with the model (pools: 13 fields, positions: 13 fields, counters, 7 accounts x 3 denoms) and MarginOK judged on the "
-        "implementation's dump per pool with exact symbol matching; after every successful Open: health, collateral taken, asset pair; after every removal by message: closer; "
+        "implementation's dump per pool with exact symbol matching, and the backing identity of C01 restricted to this world (c01.marginbacking: for every "
+        "token, bank balance of the clp module account = sum over pools of balance + custody) judged on the bank's and keeper's dumps; "
+        "after every successful Open: health, collateral taken, asset pair; after every removal by message: closer; "
         "after every epoch hook: each liquidated position's health as the hook computed it.  non-trivial = distinct successful "
         "Open/Close/AdminClose or epoch-boundary BeginBlocker line")
 TRUSTED_BASE = [
@@ -33,6 +38,8 @@ TRUSTED_BASE = [
     "decimal->float64->big.Rat conversion (Dec.MustFloat64, Rat.SetFloat64) modelled exactly for normal doubles (Sif.F64), exercised by the correspondence",
 ]
 ASSUMPTIONS = [
+    "the only unparsable fund-address string in a history is the empty one (an omitted field); the getters panic on it, as on any "
+    "other string that is not a bech32 account address",
     "the 64-bit position-id counter does not wrap (mtpCount + number of Opens < 2^64)",
     "WF: distinct position keys and pool symbols, no pool of the native asset, ids handed out by the counter (holds from an empty "
     "margin store; genesis import of positions does not restore the counters — DESIGN observation O2 — and is outside the histories)",
@@ -41,6 +48,9 @@ ASSUMPTIONS = [
     "theorems are about the repaired code (fixes/F14.diff, F14b.diff, F14c.diff applied in /repo's working tree); the pinned variants are refuted by the pinned_* theorems",
 ]
 UNPROVED = [
+    "c01.marginbacking (clp module balance = sum of pool balance + custody per token) is a decidable predicate judged on the "
+    "implementation after every message and hook and implied for the model only through the exact bank+pool correspondence; it is "
+    "not proved as an invariant of the model",
     "forced_only_unhealthy / beginBlocker_forces_only_unhealthy compare with the health the hook computes when the position's turn "
     "comes (before that block's interest payment — stale by one payment — as the code does); no theorem says a position *below* the "
     "safety factor is always liquidated (the liquidation may fail and is then skipped)",
